@@ -73,6 +73,18 @@ META2 = {
  ("C10","D"): dict(needs="sync global cache with ttl, limit and cache_if; an entry expires, its refresh is rejected, then another key is accepted", demo_dest="tests/", detected_by=["C10 (oracle cif: a result that is to be cached is not stored after the call; lifetime scenarios)"]),
  ("C11","C"): dict(needs="async cache with invalidate_on and limit, exactly full; a stale refresh whose policy victim is a different key", demo_dest="cachelito-async/tests/", detected_by=["C11 (oracle limit: a store that did not overflow removed an entry)"]),
  ("C11","D"): dict(needs="sync global cache with ttl and invalidate_on, no max_memory; stale refresh at age < T, then a call older than T from the first store but younger from the refresh", demo_dest="tests/", detected_by=["C11 (oracle ttl with history-based birth: unexpired entry not found; lifetime scenarios)", "C06"]),
+ ("C14","C"): dict(needs="sync function with default or global scope whose attribute list mentions `thread` anywhere else (name, tag, event, predicate path); two threads", demo_dest="tests/", detected_by=["C14 (oracle iso: the next call from another thread ran the body again; corpus functions f166-f169)"]),
+ ("C14","D"): dict(needs="async lru/arc/tlru with a limit, >= 2 OS threads; a thread repeats a hit on its own key after another thread touched the queue, then a store", demo_dest="cachelito-async/tests/", detected_by=["C14 (oracle order on the ping-pong scenarios)", "C07 / C08 (macro parts now run on 3 threads)"]),
+ ("C15","C"): dict(needs="sync global cache with limit = 0", demo_dest="tests/", detected_by=["C15 (c15 predicate on the core part: limit 0 is now in the profile)"]),
+ ("C15","D"): dict(needs="async function with invalidate_on; the predicate fires for a cached, unexpired entry", demo_dest="cachelito-async/tests/", detected_by=["C15 (oracle stats, now also for invalidate_on functions: a stale hit is one hit)"]),
+ ("C16","C"): dict(needs="thread scope, max_memory, policy lfu/arc/tlru; total of the stored values exceeds max_memory while the new one fits", demo_dest="tests/", detected_by=["C16 (panic 'RefCell already borrowed' in core and macro parts)"]),
+ ("C16","D"): dict(needs="async cache with ttl within ~1.8e9 of u64::MAX; a stored key looked up again", demo_dest="cachelito-async/tests/", detected_by=["C16 (panic 'attempt to add with overflow': the ends of the u64/usize ranges are now in the profile)"]),
+ ("C17","C"): dict(needs="sync global cache, max_memory, fifo or lru; two concurrent stores of values that each fit alone but not together, the second parked between its map insert and the queue lock", demo_dest="tests/", detected_by=["C17 (sched part, memory-pressure schedules: NORETURN, confirmed alone)"]),
+ ("C17","D"): dict(needs="async cache; invalidate_with whose check matches a stored key, concurrent with a store that needs that key's shard", demo_dest="cachelito-async/tests/", detected_by=["C17 (sched part: NORETURN)"]),
+ ("C19","C"): dict(needs="#[cache(scope = \"Thread\")] or any other case variant of a valid scope", demo_dest="tests/", detected_by=["C19 (attrs part: the invalid item compiles — case variants, blanks and empty strings are now in the invalid corpus)"]),
+ ("C19","D"): dict(needs="sync Result function with max_memory; an Err followed by the same arguments", demo_dest="tests/", detected_by=["C19 (oracle err: an Err is stored)", "C09"]),
+ ("C20","C"): dict(needs="async ttl + limit >= 2, policy where the dead entry is not the victim; a call for an expired key suspended while another key is stored", demo_dest="cachelito-async/tests/", detected_by=["C20 (oracle c20: the expired entry is still stored after the lookup of the suspended call)"]),
+ ("C20","D"): dict(needs="async function without invalidate_on; a second call with the same arguments completes while the first is suspended, then the first resumes", demo_dest="cachelito-async/tests/", detected_by=["C20 (oracle c20: after the resumed call the entry is not its result born now at the back of the queue)"]),
 }
 
 
